@@ -32,6 +32,8 @@ func main() {
 		if !res.OK {
 			os.Exit(1)
 		}
+	case "c20worker":
+		os.Exit(c20WorkerMain(os.Args[2:]))
 	case "dump":
 		os.Exit(dumpMain(os.Args[2:]))
 	default:
